@@ -325,11 +325,20 @@ pub fn plain_script() -> bitcoin::ScriptBuf {
 
 /// build the real transaction of a spec (`height` only feeds the coinbase script_sig)
 pub fn realise_tx(t: &TxSpec, height: usize, map: &mut TxMap) -> bitcoin::Transaction {
+  // the txid does not cover the witnesses: bind it first, so that an envelope can name an inscription of its
+  // own transaction (a sibling revealed later, or itself) as a parent
+  let bare = realise_tx_pass(t, height, map, false);
+  map.bind(t.id, bare.compute_txid());
+  realise_tx_pass(t, height, map, true)
+}
+
+fn realise_tx_pass(t: &TxSpec, height: usize, map: &mut TxMap, with_witness: bool) -> bitcoin::Transaction {
   let coinbase = t.ins.first().map(|(a, b)| *a == 0 && *b == NULL_VOUT).unwrap_or(false);
   let mut input = Vec::new();
   for (i, (ptx, pvout)) in t.ins.iter().enumerate() {
     let mut witness = bitcoin::Witness::new();
-    let mine: Vec<&EnvSpec> = t.envs.iter().filter(|e| e.recipe[R_INPUT] as usize == i).collect();
+    let mine: Vec<&EnvSpec> =
+      if with_witness { t.envs.iter().filter(|e| e.recipe[R_INPUT] as usize == i).collect() } else { Vec::new() };
     if !mine.is_empty() {
       let mut b = bitcoin::script::Builder::new();
       for e in mine {
@@ -508,10 +517,10 @@ impl World {
         }
         let mut built = Vec::new();
         for t in txs {
-          let tx = realise_tx(t, self.height(), &mut self.map);
           if self.map.real.contains_key(&t.id) {
             return Err(format!("canonical txid {} used twice", t.id));
           }
+          let tx = realise_tx(t, self.height(), &mut self.map);
           self.map.bind(t.id, tx.compute_txid());
           let recipes: Vec<Vec<u64>> = t.envs.iter().map(|e| e.recipe.clone()).collect();
           let parsed = parsed_envs(&tx, &recipes, &self.map)?;
